@@ -36,9 +36,9 @@ CONSTANTS
     RcSys,       \* pre-spawned systems created with spawn_rc_system_command: the driver holds their AutoDespawnSignal (op rcdrop)
     Excl,        \* pre-spawned systems that are exclusive (`&mut World`) systems: no accessor params, ops through world.commands()
     AppRegs,     \* reactors registered at start-up with App::add_reactor (one bundle each, persistent): systems after the world reactors
-    StepKinds,   \* subset of {"ops","gc","poll","clear"}
-    Features,    \* subset of {"err","notake","take2"}
-    Defects,     \* subset of {"swap_remove","append_after","nested_first","insert_dead"} : re-introduced defects
+    StepKinds,   \* subset of {"ops","frame","direct","gc","poll","clear"}
+    Features,    \* subset of {"err","notake","take2","coarse"}
+    Defects,     \* subset of {"swap_remove","nested_first","insert_dead"} : re-introduced defects
     Mutants,     \* model mutants for monitor sensitivity (see MC*.cfg)
     Scripted     \* TRUE: take ops from the program stored in the world (w.prog = [steps, scripts]); see TraceConf.tla
 
